@@ -13,8 +13,8 @@
      build/generation_cache.rs:70     save; :84 needs_regeneration
      bin/cargo-tauri-typegen.rs:80    run_generate; :288 run_init
      build/mod.rs:72                  run_generation; :188 generate_bindings; :264 visualisation
-     build/output_manager.rs:40       prepare_output_directory; :71 cleanup_old_files;
-                                      :102 is_generated_file; :219 finalize_generation
+     build/output_manager.rs:40       prepare_output_directory; :81 cleanup_old_files;
+                                      :112 is_generated_file; :229 finalize_generation (after the C16 repairs)
      interface/config.rs:194          save_to_file; :202 save_to_tauri_config; :253 validate *)
 From Coq Require Import String Ascii List Bool.
 Require Import TT.Model.Str.
@@ -167,7 +167,7 @@ Definition run_generate (c : cfg) (a : ana) (s : fs) : fs * outcome :=
 Record initp := {
   i_target : path;     (* the configuration file init was pointed at (resolved) *)
   i_force : bool;
-  i_parses : bool;     (* the existing file is a JSON document *)
+  i_parses : bool;     (* the existing file is a JSON object whose plugins member, if any, is an object *)
   i_new : str }.       (* the text init writes (C19 says what it is) *)
 
 Definition is_tauri_conf (p : path) : bool := str_eqb (last p []) n_tauri_conf.
@@ -179,11 +179,14 @@ Definition init_save (i : initp) (s : fs) : option fs :=
   else
     if exists_b s t && negb (i_force i) then None else write s t (i_new i).
 
+(* run_init validates the settings (library, project path) before the configuration
+   file is touched (bin/cargo-tauri-typegen.rs, config.validate before the save) *)
 Definition run_init (i : initp) (c : cfg) (a : ana) (s : fs) : fs * outcome :=
-  match init_save i s with
-  | None => (s, Failed)
-  | Some s1 => run_generate c a s1
-  end.
+  if negb (c_lib_ok c) || negb (exists_b s (c_proj c)) then (s, Failed)
+  else match init_save i s with
+       | None => (s, Failed)
+       | Some s1 => run_generate c a s1
+       end.
 
 (* ---- build script: OutputManager *)
 Definition generated_patterns : list str :=
@@ -195,8 +198,12 @@ Fixpoint contains (pat s : str) : bool :=
 
 Definition in_b (n : str) (l : list str) : bool := existsb (str_eqb n) l.
 
+Definition ends_ts (n : str) : bool := starts (rev (L ".ts")) (rev n).
+
 Definition is_generated_file (managed : list str) (n : str) : bool :=
-  in_b n generated_patterns || starts (L "generated_") n || contains (L "_generated") n || in_b n managed.
+  in_b n generated_patterns
+  || ((starts (L "generated_") n || contains (L "_generated") n) && ends_ts n)
+  || in_b n managed.
 
 (* names of the regular files directly inside d, in listing order *)
 Fixpoint strip_prefix (d p : path) : option path :=
@@ -211,14 +218,17 @@ Definition child_files (s : fs) (d : path) : list str :=
                      | _ => []
                      end) s.
 
+(* the write probe opens <out>/.write_test with create_new: an existing entry of that
+   name (AlreadyExists) is left alone, a fresh one is created empty and removed again *)
 Definition prepare_output_directory (out : path) (s : fs) : option fs :=
   match (if exists_b s out then Some s else mkdir_all s out) with
   | None => None
   | Some s1 =>
-      match write s1 (out ++ [n_probe]) (L "test") with
-      | None => None
-      | Some s2 => Some (match remove_file s2 (out ++ [n_probe]) with Some s3 => s3 | None => s2 end)
-      end
+      if exists_b s1 (out ++ [n_probe]) then Some s1
+      else match write s1 (out ++ [n_probe]) [] with
+           | None => None
+           | Some s2 => Some (match remove_file s2 (out ++ [n_probe]) with Some s3 => s3 | None => s2 end)
+           end
   end.
 
 Definition cleanup_old_files (out : path) (current : list str) (s : fs) : fs :=
